@@ -157,23 +157,39 @@ Definition query_at_cut (c : zcut) (qt : rtype) : nanswer :=
     match c_ds c with Some r => NA_data r | None => NA_no_data end
   else NA_authority c.
 
+(* ZoneNode::exists: nodes are never removed; a name exists if it owns data
+   (RRsets, a zone cut, a CNAME) or a name below it exists *)
+Fixpoint node_exists (n : node) : bool :=
+  let 'Node rs sp cs := n in
+  negb (rrsets_is_empty rs)
+  || match sp with Some (Cut _) => true | Some (Cname _) => true | _ => false end
+  || (fix any (cs : list (label * node)) : bool :=
+        match cs with [] => false | (_, c) :: cs' => node_exists c || any cs' end) cs.
+
 Definition here_but_not_below (n : node) (qt : rtype) : nanswer :=
   match n_special n with
   | Some (Cut c) => query_at_cut c qt
   | Some (Cname c) => NA_cname c
-  | Some NxDomain => NA_nx_domain
+  | Some NxDomain => if marker_answers_like_unmarked then query_rrsets (n_rrsets n) qt else NA_nx_domain
   | None => query_rrsets (n_rrsets n) qt
   end.
 
-(* query_children, walk disabled: exact child, else the `*` child, else NXDOMAIN.
-   [rec] is the continuation on the exact child (query_node with the rest of
-   the name). *)
-Definition query_children (rec : node -> nanswer) (cs : list (label * node)) (l : label) (qt : rtype) : nanswer :=
+(* a child counts only if its name exists *)
+Definition find_existing (l : label) (cs : list (label * node)) : option node :=
   match find_child l cs with
+  | Some c => if children_filtered_by_exists then (if node_exists c then Some c else None) else Some c
+  | None => None
+  end.
+
+(* query_children, walk disabled: existing exact child, else the existing `*`
+   child, else NXDOMAIN.  [rec] is the continuation on the exact child
+   (query_node with the rest of the name). *)
+Definition query_children (rec : node -> nanswer) (cs : list (label * node)) (l : label) (qt : rtype) : nanswer :=
+  match find_existing l cs with
   | Some c => rec c
   | None =>
       if children_exact_then_wildcard then
-        match find_child wild_label cs with
+        match find_existing wild_label cs with
         | Some w => here_but_not_below w qt
         | None => NA_nx_domain
         end
@@ -188,8 +204,8 @@ Fixpoint query_node (n : node) (q : name) (qt : rtype) : nanswer :=
       match n_special n with
       | Some (Cut c) => NA_authority c
       | Some NxDomain =>
-          if nxdomain_marker_stops_descent then NA_nx_domain
-          else query_children (fun c => query_node c q' qt) (n_children n) l qt
+          if marker_descends_like_unmarked then query_children (fun c => query_node c q' qt) (n_children n) l qt
+          else NA_nx_domain
       | _ => query_children (fun c => query_node c q' qt) (n_children n) l qt
       end
   end.
